@@ -20,7 +20,8 @@ CFG = dict(
          "length, sorted output positionally, unsorted output as a multiset of (padding?, value) entries; arg-partitions "
          "through the values at the returned positions plus a flag: indices in range, distinct, never of a null. "
          "nt=0 marks the empty series",
-    theorem_hint="Props/C12.v: C12_quantile_*, C12_percentile_of, C12_rank_*, C12_partition_*, C12_arg_partition_*",
+    theorem_hint="Props/C12.v: C12_quantile_*, C12_percentile_of, C12_rank_*, C12_partition_*, C12_arg_partition_*, "
+                 "C12_binary64_*, C12_quantile_index_binary64, C12_quantile_index_law_binary64, C12_quantile_total_binary64",
     level_text="Proof (Coq, carrier option R): 17 theorems about the Gallina model of vquantile / vmedian, vpercentile_of, "
                "vrank, vpartition and varg_partition, for every series and every parameter, stated against ANY sorted "
                "arrangement s of the non-null elements: quantile = value at fractional index (n-1)q of s under the four "
@@ -30,15 +31,33 @@ CFG = dict(
                "partition = permutation of (k+1 first of s ++ null padding), exactly that when sorted, with the length / "
                "sub-multiset / dominance consequences; arg-partition = distinct in-range indices of non-null elements with "
                "those values ++ -1 padding. Sorting is a verified insertion sort under the model's sort_cmp (nulls last). "
+               "AT BINARY64 (9 further theorems, Coq's primitive float = the carrier the correspondence run evaluates, through "
+               "Flocq's specification of IEEE 754 arithmetic): the model's floor/ceil are the mathematical floor/ceiling of every "
+               "finite float; (n-1) as f64 is exact below 2^53; the guard 0 <= q <= 1 means q finite with value in [0,1]; THE INDEX "
+               "LAW: on the branch the code takes (q <= 0.5: fl((n-1) q), q > 0.5: fl((n-1) fl(1-q))) the fractional index h is "
+               "finite and 0 <= floor h <= ceil h <= n-1, ceil h - floor h <= 1, for every q in [0,1] and EVERY n >= 1 "
+               "(rounding to nearest is monotone and fixes representable numbers; the factor is <= 0.5 on either branch, which "
+               "absorbs the rounding of the length cast beyond 2^53); for n-1 < 2^53 the same for both products whatever the "
+               "branch, and a witness that this needs the bound; hence TransQuantile.QIdxLaw at binary64 and totality of "
+               "vquantile / vmedian at binary64 for every null dictionary (never a panic; Err exactly for q outside [0,1], NaN "
+               "included). Still NOT proved at binary64: the VALUE of the quantile (interpolation arithmetic vi + (vj - vi) * "
+               "fraction is rounded; compared within 1e-9 by the correspondence run) and which of two neighbouring order "
+               "statistics is selected when (n-1)q is within rounding distance of an integer (DESIGN 5.5). "
                "The model is tied to the code by the differential run described in the rule.",
-    level_note="Trusted: Coq kernel + Reals axioms for the theorems stated over option R; std's sort_unstable_by / "
+    level_note="Trusted: Coq kernel + Reals axioms for the theorems stated over option R; for the binary64 theorems "
+               "additionally the standard library's specification of the primitive float operations (Floats/FloatAxioms.v: "
+               "Prim2SF_valid, SF2Prim_Prim2SF, Prim2SF_SF2Prim, mul_spec, sub_spec, opp_spec, abs_spec, of_uint63_spec, "
+               "leb_spec, eqb_spec) and the Flocq library (no axiom of its own); std's sort_unstable_by / "
                "select_nth_unstable_by post-conditions (modelled by a sort; order of ties unspecified, hence the "
                "multiset comparison); the model; harness and comparator.",
     trusted=["std::slice::sort_unstable_by / select_nth_unstable_by satisfy their documented post-conditions (modelled "
              "by a verified stable insertion sort; nothing compared depends on the order of ties)",
              "Reals axioms of the Coq standard library for the theorems over option R",
-             "binary64 rounding is not modelled by the proof instance (option R); the float instance mirrors the "
-             "operation order and is compared within 1e-9; DESIGN 5.5 for (n-1)q at rounding distance of an integer"],
+             "binary64 rounding of the quantile VALUE is not modelled by the proof instance (option R); the float instance "
+             "mirrors the operation order and is compared within 1e-9; DESIGN 5.5 for (n-1)q at rounding distance of an "
+             "integer (the INDEX arithmetic is proved at binary64: C12_quantile_index_binary64)",
+             "Coq's primitive floats implement IEEE 754 binary64 as specified by Floats/FloatAxioms.v (stdlib axioms), and "
+             "`usize as f64` is the correctly rounded conversion that `of_uint63` is (lengths below 2^63)"],
 )
 
 
